@@ -764,6 +764,10 @@ pub(crate) fn check_if_response_is_matched(
             .count();
         let last_n_count = total_count - before_boundary_count;
         if last_n_count > last_n_blocks {
+            if before_boundary_count < reorg_count {
+                let errmsg = "total difficulties of reorg headers should be less than the difficulty boundary";
+                return Err(StatusCode::InvalidReorgHeaders.with_context(errmsg));
+            }
             (before_boundary_count - reorg_count, last_n_count)
         } else {
             (total_count - reorg_count - last_n_blocks, last_n_blocks)
@@ -779,6 +783,7 @@ pub(crate) fn check_if_response_is_matched(
             let last_last_n_header_number = headers[headers.len() - 1].header().number();
             let last_number = last_header.header().number();
             if first_last_n_header_number != start_number
+                || last_last_n_header_number == u64::MAX
                 || last_last_n_header_number + 1 != last_number
             {
                 let errmsg = format!(
